@@ -17,9 +17,11 @@ import (
 	"google.golang.org/genproto/googleapis/api/annotations"
 	"google.golang.org/genproto/googleapis/api/serviceconfig"
 	"google.golang.org/grpc"
+	"google.golang.org/grpc/codes"
 	"google.golang.org/grpc/credentials/insecure"
 	"google.golang.org/grpc/reflection"
 	rpb "google.golang.org/grpc/reflection/grpc_reflection_v1alpha"
+	"google.golang.org/grpc/status"
 	"google.golang.org/protobuf/encoding/protowire"
 	"google.golang.org/protobuf/proto"
 	"google.golang.org/protobuf/reflect/protodesc"
@@ -36,7 +38,7 @@ import (
 // backends (grpc.Server + grpc-go's reflection service over a switchable descriptor set + a
 // catch-all handler that tags its replies), probes after the steps marked '!'.
 //   C11 <catalogue> <op,op,...>  ;  <step> <step> ...
-//   op:   R<conn>.<desc>[!]  L<impl>.<desc>[!]  D<conn>[!]
+//   op:   R<conn>.<desc>[~][!]  L<impl>.<desc>[!]  D<conn>[!]     (~: the reflection stream ends with an error status)
 //   step: <result>|<probe>,<probe>...   result: ok err panic true false
 //   probe: g<method>=<set>  h<node>.<verb>=<set>   set: '+'-joined sorted distinct answers
 //          c<k> l<k> (tag of the answering backend)  U (unimplemented)  N (not found)  E<code>
@@ -255,13 +257,31 @@ func (r c11Resolver) FindDescriptorByName(n protoreflect.FullName) (protoreflect
 
 // ---- backends ----
 
+// c11Refl is grpc-go's reflection service, except that with endErr set the reflection stream, after every
+// request has been answered correctly, ends with an error status instead of OK
+type c11Refl struct {
+	rpb.ServerReflectionServer
+	endErr *atomic.Bool
+}
+
+func (r c11Refl) ServerReflectionInfo(st rpb.ServerReflection_ServerReflectionInfoServer) error {
+	if err := r.ServerReflectionServer.ServerReflectionInfo(st); err != nil {
+		return err
+	}
+	if r.endErr.Load() {
+		return status.Error(codes.Unavailable, "reflection stream ends badly")
+	}
+	return nil
+}
+
 type c11Backend struct {
-	id   int
-	srv  *grpc.Server
-	cc   *grpc.ClientConn
-	cur  atomic.Value // protoreflect.FileDescriptor currently listed
-	more atomic.Value // []protoreflect.FileDescriptor listed beside it (split descriptor sets)
-	hits atomic.Int64
+	endErr atomic.Bool
+	id     int
+	srv    *grpc.Server
+	cc     *grpc.ClientConn
+	cur    atomic.Value // protoreflect.FileDescriptor currently listed
+	more   atomic.Value // []protoreflect.FileDescriptor listed beside it (split descriptor sets)
+	hits   atomic.Int64
 }
 
 func (b *c11Backend) all() []protoreflect.FileDescriptor {
@@ -366,7 +386,7 @@ func c11Setup() *c11Env {
 			}
 			return ss.SendMsg(wrapperspb.String(reply)) // same wire format as c11.Rep{tag}
 		}))
-		rpb.RegisterServerReflectionServer(b.srv, reflection.NewServer(reflection.ServerOptions{Services: b, DescriptorResolver: b}))
+		rpb.RegisterServerReflectionServer(b.srv, c11Refl{reflection.NewServer(reflection.ServerOptions{Services: b, DescriptorResolver: b}), &b.endErr})
 		lis, err := net.Listen("tcp", "127.0.0.1:0")
 		if err != nil {
 			panic(err)
@@ -411,8 +431,13 @@ func (e *c11Env) apply(m *larking.Mux, op string) (res string) {
 	kind, rest := op[0], op[1:]
 	switch kind {
 	case 'R':
-		cs, ds, _ := strings.Cut(rest, ".")
+		// R<conn>.<desc>~ : the backend ends its reflection stream with an error status after having answered
+		// everything (a registration that comes back with an error must not have published anything)
+		flaky := strings.HasSuffix(rest, "~")
+		cs, ds, _ := strings.Cut(strings.TrimSuffix(rest, "~"), ".")
 		b := e.backends[atoi(cs)]
+		b.endErr.Store(flaky)
+		defer b.endErr.Store(false)
 		b.cur.Store(e.files[atoi(ds)])
 		b.more.Store(e.more[atoi(ds)])
 		ctx, cancel := context.WithTimeout(context.Background(), 10*time.Second)
